@@ -37,6 +37,11 @@ type Op struct {
 	DtUs  int64  `json:"dt,omitempty"`  // clock advance before the op, microseconds
 	Queue bool   `json:"oiq,omitempty"` // getack: onlyIfQueued
 	Now   bool   `json:"now,omitempty"` // arrive: immediately ask for a queued ACK afterwards
+	// gapburst: N groups of Run consecutive packet numbers, the groups Step numbers apart (Run < Step), starting at PN:
+	// N disjoint ranges from N*Run ordinary arrivals
+	N    int `json:"n,omitempty"`
+	Step int `json:"step,omitempty"`
+	Run  int `json:"run,omitempty"`
 }
 
 type Params struct {
@@ -55,6 +60,15 @@ type spaceModel struct {
 	aeSinceAck  int
 	mustQueue   bool // model is certain an ACK is due immediately
 	largest     int64
+	// eviction bookkeeping (more than MaxNumAckRanges disjoint ranges): the number of tracked ranges (maintained
+	// incrementally), the watermark below which the implementation documents that it cannot tell new packets from
+	// duplicates any more (max of the forget threshold and the Start of the oldest range kept by an eviction; -1 =
+	// none), and the most recently evicted ranges (newest last)
+	oldestAt  int64 // arrival time of the oldest entry of pending, -1 if empty
+	nranges   int
+	lowHint   int64 // no tracked number is below it
+	watermark int64
+	evicted   [][2]int64
 }
 
 type machine struct {
@@ -63,6 +77,7 @@ type machine struct {
 	sp     [3]*spaceModel
 	p      Params
 	hadGap, hadDup, hadFill, overCap, hadIgnore bool
+	cls map[string]bool // further per-case class labels
 	sigv   []byte
 	falseDup int
 	// largest-acked values of the 1-RTT ACK frames returned so far
@@ -72,18 +87,35 @@ type machine struct {
 func newMachine(p Params) vf.Machine[Op] {
 	m := &machine{h: ackhandler.NewReceivedPacketHandler(utils.DefaultLogger), now: 1_000_000, p: p}
 	for i := range m.sp {
-		m.sp[i] = &spaceModel{received: map[int64]bool{}, tracked: map[int64]bool{}, pending: map[int64]int64{}, largest: -1}
+		m.sp[i] = &spaceModel{received: map[int64]bool{}, tracked: map[int64]bool{}, pending: map[int64]int64{}, largest: -1, watermark: -1, oldestAt: -1}
 	}
+	m.cls = map[string]bool{}
 	return m
 }
 
 func (m *machine) t() monotime.Time { return monotime.Time(m.now * 1000) }
 
 func (m *machine) Gen(t *rapid.T) Op {
-	k := rapid.SampledFrom([]string{"arrive", "arrive", "arrive", "arrive", "arrive", "arrive", "getack", "getack", "ignore", "drop", "burst"}).Draw(t, "kind")
+	k := rapid.SampledFrom([]string{"arrive", "arrive", "arrive", "arrive", "arrive", "arrive", "getack", "getack", "ignore", "drop", "burst", "gapburst", "late", "late", "late"}).Draw(t, "kind")
 	op := Op{Kind: k}
 	op.DtUs = rapid.SampledFrom([]int64{0, 0, 1, 100, 1000, 5000, 12000, 24999, 25000, 25001, 60000}).Draw(t, "dt")
+	if k == "late" {
+		// a late copy / a late first arrival in and around the ranges an eviction forgot; until a space has
+		// evicted something, build the gaps instead
+		if !m.genLate(t, &op) {
+			k = "gapburst"
+			op.Kind = k
+		}
+	}
 	switch k {
+	case "gapburst":
+		op.Space = rapid.SampledFrom([]int{0, 1, 2, 2, 2, 2}).Draw(t, "space")
+		op.PN = m.sp[op.Space].largest + 1 + int64(rapid.IntRange(0, 3).Draw(t, "gap"))
+		op.Step = rapid.IntRange(2, 6).Draw(t, "step")
+		op.Run = rapid.IntRange(1, op.Step-1).Draw(t, "run")
+		op.N = rapid.SampledFrom([]int{3, 30, 60, 63, 64, 65, 66, 70, 100, 130, 3 * protocol.MaxNumAckRanges}).Draw(t, "n")
+		op.AE = rapid.IntRange(0, 2).Draw(t, "ae") != 0
+		op.Now = rapid.Bool().Draw(t, "acknow")
 	case "arrive", "burst":
 		op.Space = rapid.SampledFrom([]int{0, 1, 2, 2, 2, 2}).Draw(t, "space")
 		sp := m.sp[op.Space]
@@ -133,6 +165,58 @@ func (m *machine) Gen(t *rapid.T) Op {
 	return op
 }
 
+// genLate turns op into an ordinary arrival of a packet number in or around the ranges that an eviction forgot:
+// first / last / inner number of the newest or of an older evicted range, the numbers between the newest evicted
+// range and the oldest kept range, the watermark itself and its neighbours, a number that is still missing above the
+// watermark, a number below everything.
+func (m *machine) genLate(t *rapid.T, op *Op) bool {
+	var cand []int
+	for s, sp := range m.sp {
+		if len(sp.evicted) > 0 && !sp.dropped {
+			cand = append(cand, s)
+		}
+	}
+	if len(cand) == 0 {
+		return false
+	}
+	op.Kind = "arrive"
+	op.Space = rapid.SampledFrom(cand).Draw(t, "latespace")
+	sp := m.sp[op.Space]
+	ne := sp.evicted[len(sp.evicted)-1]
+	switch rapid.IntRange(0, 9).Draw(t, "latemode") {
+	case 0:
+		op.PN = ne[0]
+	case 1, 2:
+		op.PN = ne[1]
+	case 3:
+		r := ne
+		for i := len(sp.evicted) - 1; i >= 0; i-- {
+			if e := sp.evicted[i]; e[1]-e[0] >= 2 {
+				r = [2]int64{e[0] + 1, e[1] - 1}
+				break
+			}
+		}
+		op.PN = rapid.Int64Range(r[0], r[1]).Draw(t, "inner")
+	case 4:
+		oe := sp.evicted[rapid.IntRange(0, len(sp.evicted)-1).Draw(t, "older")]
+		op.PN = oe[rapid.IntRange(0, 1).Draw(t, "end")]
+	case 5, 6:
+		// between the newest evicted range and the watermark (both ends included)
+		op.PN = rapid.Int64Range(ne[1], max(ne[1], sp.watermark)).Draw(t, "between")
+	case 7, 8:
+		// a number at or above the watermark that is still missing
+		op.PN = rapid.Int64Range(max(sp.watermark, 0), max(sp.watermark, sp.largest, 0)).Draw(t, "above")
+		for sp.received[op.PN] {
+			op.PN++
+		}
+	default:
+		op.PN = rapid.Int64Range(0, max(ne[0], 0)).Draw(t, "below")
+	}
+	op.AE = rapid.IntRange(0, 3).Draw(t, "ae") != 0
+	op.Now = rapid.Bool().Draw(t, "acknow")
+	return true
+}
+
 func ranges(set map[int64]bool) [][2]int64 {
 	keys := make([]int64, 0, len(set))
 	for k := range set {
@@ -165,6 +249,51 @@ func (m *machine) arrive(op Op) *vf.Verdict {
 	if (sp.tracked[pn] || pn < sp.threshold) && !dup {
 		return vf.Bad("C07/duplicate/not-recognised", "space %d: pn %d was received before and is within the tracked history (threshold %d) but IsPotentiallyDuplicate=false", op.Space, pn, sp.threshold)
 	}
+	// A packet number that was accepted once stays a (potential) duplicate for good: the ranges an eviction forgets
+	// lie below the watermark the history remembers ("Packets below the oldest range we still track can't be told
+	// apart from duplicates anymore", received_packet_history.go; RFC 9000 12.3: a packet MUST be discarded unless
+	// the receiver is certain it has not processed that number before).
+	evictedPart := ""
+	if wasReceived && !sp.tracked[pn] && pn >= sp.threshold {
+		for i := len(sp.evicted) - 1; i >= 0; i-- {
+			if e := sp.evicted[i]; e[0] <= pn && pn <= e[1] {
+				if pn == e[0] {
+					m.cls["late-copy-of-evicted-range:first"] = true
+					evictedPart = "first"
+				}
+				if pn == e[1] {
+					m.cls["late-copy-of-evicted-range:last"] = true
+					evictedPart += "last"
+				}
+				if pn > e[0] && pn < e[1] {
+					m.cls["late-copy-of-evicted-range:inner"] = true
+					evictedPart = "inner"
+				}
+				if i == len(sp.evicted)-1 {
+					m.cls["late-copy-of-newest-evicted-range"] = true
+				}
+				break
+			}
+		}
+		if !dup {
+			return vf.Bad("C07/duplicate/evicted-not-recognised", "space %d: pn %d was received before, its range (%s number) was evicted beyond MaxNumAckRanges (watermark %d, last evicted %v), but IsPotentiallyDuplicate=false: the copy is processed a second time", op.Space, pn, evictedPart, sp.watermark, lastN(sp.evicted, 2))
+		}
+	}
+	if !wasReceived && len(sp.evicted) > 0 {
+		switch {
+		case pn >= sp.watermark && pn < sp.largest:
+			m.cls["late-first-arrival-above-watermark"] = true
+		case pn < sp.watermark && pn > sp.evicted[len(sp.evicted)-1][1] && pn >= sp.threshold:
+			m.cls["first-arrival-between-evicted-and-kept"] = true
+		case pn < sp.watermark:
+			m.cls["first-arrival-below-evicted"] = true
+		}
+	}
+	// Below the watermark a never-received number may be refused (conservative; not judged). At or above it
+	// the history is exact, so a first arrival must be accepted.
+	if !wasReceived && pn >= sp.watermark && dup {
+		return vf.Bad("C07/duplicate/new-packet-rejected", "space %d: pn %d was never received and is not below the watermark %d (threshold %d) but IsPotentiallyDuplicate=true", op.Space, pn, sp.watermark, sp.threshold)
+	}
 	if dup {
 		return nil // the connection drops the packet unprocessed
 	}
@@ -174,16 +303,50 @@ func (m *machine) arrive(op Op) *vf.Verdict {
 	// model update
 	prevLargest := sp.largest
 	sp.received[pn] = true
+	if !sp.tracked[pn] {
+		switch lo, hi := sp.tracked[pn-1], sp.tracked[pn+1]; {
+		case !lo && !hi:
+			sp.nranges++
+		case lo && hi:
+			sp.nranges--
+		}
+	}
 	sp.tracked[pn] = true
 	if pn > sp.largest {
 		sp.largest = pn
 	}
-	if rs := ranges(sp.tracked); len(rs) > protocol.MaxNumAckRanges {
+	wBefore := sp.watermark
+	if pn < sp.lowHint {
+		sp.lowHint = pn
+	}
+	if sp.nranges > protocol.MaxNumAckRanges {
 		m.overCap = true
-		for _, r := range rs[:len(rs)-protocol.MaxNumAckRanges] {
-			for x := r[0]; x <= r[1]; x++ {
+		m.cls["ranges-evicted"] = true
+		for sp.nranges > protocol.MaxNumAckRanges {
+			lo := sp.lowestTracked()
+			hi := lo
+			for sp.tracked[hi+1] {
+				hi++
+			}
+			for x := lo; x <= hi; x++ {
 				delete(sp.tracked, x)
 			}
+			sp.evicted = append(sp.evicted, [2]int64{lo, hi})
+			sp.nranges--
+			sp.lowHint = hi + 1
+		}
+		if len(sp.evicted) > 8 {
+			sp.evicted = append(sp.evicted[:0], sp.evicted[len(sp.evicted)-8:]...)
+		}
+		sp.watermark = max(sp.watermark, sp.lowestTracked())
+	}
+	if !sp.tracked[pn] {
+		// accepted (its frames are processed) and forgotten in the same call: it can never be acknowledged.
+		// Legitimate only as the range-cap defence itself: the history was full and pn, not below the
+		// watermark, opened a new lowest range.
+		m.cls["accepted-and-evicted-at-once"] = true
+		if pn < wBefore && op.AE {
+			return vf.Bad("C07/ack/accepted-below-watermark-never-acked", "space %d: ack-eliciting pn %d lies below the watermark %d of an earlier eviction; it was accepted as new (IsPotentiallyDuplicate=false), processed, and dropped from the history in the same call: it is never acknowledged", op.Space, pn, wBefore)
 		}
 	}
 	if pn > prevLargest+1 && prevLargest >= 0 {
@@ -196,6 +359,9 @@ func (m *machine) arrive(op Op) *vf.Verdict {
 		return nil
 	}
 	sp.pending[pn] = m.now
+	if sp.oldestAt < 0 {
+		sp.oldestAt = m.now // the clock never goes back
+	}
 	sp.aeSinceAck++
 	if op.Space < 2 {
 		sp.mustQueue = true
@@ -221,12 +387,7 @@ func (m *machine) arrive(op Op) *vf.Verdict {
 	}
 	// alarm: if no ACK is queued an alarm must be set no later than oldest pending + MaxAckDelay
 	alarm := m.h.GetAlarmTimeout()
-	oldest := int64(-1)
-	for _, at := range sp.pending {
-		if oldest < 0 || at < oldest {
-			oldest = at
-		}
-	}
+	oldest := sp.oldestAt
 	deadline := monotime.Time(oldest * 1000).Add(protocol.MaxAckDelay)
 	if !alarm.IsZero() {
 		if alarm.After(deadline) {
@@ -251,6 +412,32 @@ func (m *machine) arrive(op Op) *vf.Verdict {
 		return vf.Bad("C07/due/lost", "1-RTT pn %d ack-eliciting: no ACK queued and no alarm set", pn)
 	}
 	return m.gotAck(op.Space, f, true)
+}
+
+// lowestTracked returns the smallest tracked packet number (the set is not empty).
+func (sp *spaceModel) lowestTracked() int64 {
+	for x := sp.lowHint; x < sp.lowHint+64; x++ {
+		if sp.tracked[x] {
+			sp.lowHint = x
+			return x
+		}
+	}
+	first := true
+	var lo int64
+	for x := range sp.tracked {
+		if first || x < lo {
+			lo, first = x, false
+		}
+	}
+	sp.lowHint = lo
+	return lo
+}
+
+func lastN(rs [][2]int64, n int) [][2]int64 {
+	if len(rs) > n {
+		return rs[len(rs)-n:]
+	}
+	return rs
 }
 
 func acks(rs []wire.AckRange, pn int64) bool {
@@ -293,6 +480,7 @@ func (m *machine) gotAck(space int, f *wire.AckFrame, _ bool) *vf.Verdict {
 		}
 	}
 	sp.pending = map[int64]int64{}
+	sp.oldestAt = -1
 	sp.aeSinceAck = 0
 	sp.mustQueue = false
 	sp.lastAck = append(sp.lastAck[:0], rs...)
@@ -319,6 +507,17 @@ func (m *machine) Apply(op Op) (v *vf.Verdict) {
 			if v := m.arrive(Op{Space: op.Space, PN: op.PN + int64(2*i), AE: op.AE}); v != nil {
 				return v
 			}
+		}
+	case "gapburst":
+		for i := 0; i < op.N; i++ {
+			for j := 0; j < op.Run; j++ {
+				if v := m.arrive(Op{Space: op.Space, PN: op.PN + int64(i*op.Step+j), AE: op.AE}); v != nil {
+					return v
+				}
+			}
+		}
+		if op.Now {
+			return m.getack(Op{Space: op.Space, Queue: true})
 		}
 	case "getack":
 		return m.getack(op)
@@ -349,6 +548,14 @@ func (m *machine) Apply(op Op) (v *vf.Verdict) {
 					delete(sp.pending, x)
 				}
 			}
+			sp.oldestAt = -1
+			for _, at := range sp.pending {
+				if sp.oldestAt < 0 || at < sp.oldestAt {
+					sp.oldestAt = at
+				}
+			}
+			sp.nranges = len(ranges(sp.tracked))
+			sp.watermark = max(sp.watermark, op.PN)
 		}
 	case "drop":
 		sp := m.sp[op.Space]
@@ -359,6 +566,7 @@ func (m *machine) Apply(op Op) (v *vf.Verdict) {
 			m.h.DropPackets(levels[op.Space])
 			sp.dropped = true
 			sp.pending = map[int64]int64{}
+			sp.oldestAt = -1
 		}
 	}
 	return nil
@@ -429,6 +637,11 @@ func (m *machine) Finish(u *vf.Unit) *vf.Verdict {
 					return vf.Bad("C07/duplicate/not-recognised", "space %d: pn %d tracked but not recognised as duplicate at end", s, pn)
 				}
 			}
+			for pn := range m.sp[s].received {
+				if !m.h.IsPotentiallyDuplicate(protocol.PacketNumber(pn), levels[s]) {
+					return vf.Bad("C07/duplicate/evicted-not-recognised", "space %d: pn %d was received, is no longer tracked (watermark %d, threshold %d, last evicted %v) and is not recognised as duplicate at end", s, pn, m.sp[s].watermark, m.sp[s].threshold, lastN(m.sp[s].evicted, 2))
+				}
+			}
 		}
 	}
 	for _, c := range []struct {
@@ -438,6 +651,9 @@ func (m *machine) Finish(u *vf.Unit) *vf.Verdict {
 		if c.b {
 			u.Class(c.n)
 		}
+	}
+	for c := range m.cls {
+		u.Class(c)
 	}
 	if m.hadFill || m.hadDup || m.overCap {
 		u.NonTrivial(m.sigv)
